@@ -39,13 +39,8 @@ func nearTransition(t time.Time, margin time.Duration) bool {
 }
 
 func evalWith(text string, data map[string]interface{}) obs.EvalOut {
-	p := obs.Parse([]byte(text))
-	if !p.OK() {
-		return obs.EvalOut{Err: fmt.Errorf("parse: %v", p.Err)}
-	}
-	r := formula.NewRunner()
-	r.SetThis(data)
-	return obs.Eval(r, context.Background(), p.Src.Expression)
+	// parse once, evaluate (texts without locals and clock: twice on the same tree, see obs.EvalText)
+	return obs.EvalText(text, data)
 }
 
 // fieldsOf computes the civil fields of instant (sec since epoch) at UTC offset off.
